@@ -144,6 +144,21 @@ def configs(tier):
                         for perm in ps:
                             out.append(dict(comp=comp, fault=fault, cause=cause, instant=instant,
                                             entry=entry, perm=perm))
+    if tier == 'thorough':
+        # two injected faults (different sites), a reduced cause / instant set
+        for comp in COMPS:
+            sites = [f for f in fault_sites(comp) if f is not None]
+            nblk = len(comp_blocks(comp))
+            perms = list(itertools.permutations(range(nblk)))
+            for f1, f2 in itertools.combinations(sites, 2):
+                for cause, instant, entry in (('shutdown', 'running', 'run_forever'),
+                                              ('fault-only', 'running', 'run'),
+                                              ('ctrl-abort', 'running', 'run'),
+                                              ('shutdown', 'task-created', 'run_forever'),
+                                              ('sigterm', 'running', 'run')):
+                    for perm in (perms[0], perms[-1]):
+                        out.append(dict(comp=comp, fault=f1, faults=(f1, f2), cause=cause,
+                                        instant=instant, entry=entry, perm=perm))
     # termination requested synchronously from inside the simulation task: in a block's start(),
     # in a synchronous initialisation routine, during the first evaluation (an output event)
     for comp in COMPS:
@@ -177,6 +192,7 @@ def run_case(cfg, acc):
     flog = {}      # output-function logs per block
     res = {}
     specs = comp_blocks(comp)
+    all_faults = list(cfg.get('faults') or ([fault] if fault is not None else []))
     shutdown_ctor = getattr(edzed.Event, 'shutdown', None)
     if shutdown_ctor is None:
         viol.append(('Event.shutdown-missing',
@@ -209,10 +225,15 @@ def run_case(cfg, acc):
             return co
         def make_blocks():
           for name, kind, params in specs:
-              fphase = fault[1] if fault is not None and fault[0] == name else None
+              fphases = [f[1] for f in all_faults if f[0] == name]
+              fphase = fphases[0] if fphases else None
               bcfg = {}
-              if fphase in ('start', 'init_regular', 'event', 'stop'):
-                  bcfg[fphase] = ('raise', Fault(f'{name}.{fphase}'))
+              for ph in fphases:
+                  if ph in ('start', 'init_regular', 'event', 'stop'):
+                      bcfg[ph] = ('raise', Fault(f'{name}.{ph}'))
+              for special in ('stop_async', 'init_async', 'maintask', 'output-function', 'calc_output'):
+                  if special in fphases:
+                      fphase = special
               if 'init_regular' not in bcfg:
                   bcfg['init_regular'] = ('set', 0)
               if kind == 'sync':
@@ -484,7 +505,7 @@ def run_case(cfg, acc):
             return viol
         res['loop_exc'] = list(loop.exc_log)
     viol += judge(cfg, specs, log, flog, res)
-    acc.outcome((cfg['comp'], cfg['fault'], cfg['cause'], cfg['instant'], cfg['entry'], cfg['perm'],
+    acc.outcome((cfg['comp'], cfg['fault'], cfg.get('faults'), cfg['cause'], cfg['instant'], cfg['entry'], cfg['perm'],
                  tuple((e[1], e[2]) for e in log), tuple(res.get('tasks', ()))))
     return viol
 
@@ -496,9 +517,13 @@ async def _quiet(aw):
         pass
 
 
+def all_faults_of(cfg):
+    return list(cfg.get('faults') or ([cfg['fault']] if cfg['fault'] is not None else []))
+
+
 def judge(cfg, specs, log, flog, res):
     viol = []
-    tag = f"{cfg['comp']} fault={cfg['fault']} cause={cfg['cause']}@{cfg['instant']} via {cfg['entry']} perm={cfg['perm']}"
+    tag = f"{cfg['comp']} fault={cfg.get('faults') or cfg['fault']} cause={cfg['cause']}@{cfg['instant']} via {cfg['entry']} perm={cfg['perm']}"
     if not res.get('finished'):
         if cfg['cause'] != 'fault-only':
             viol.append(('simulation-not-stopped',
@@ -542,7 +567,7 @@ def judge(cfg, specs, log, flog, res):
             elif len(idx[(name, 'stop_async')]) > 1:
                 viol.append(('stop_async-twice', f"{tag}: {name}"))
             elif (params['astop'] is not None and params['astop'] < params.get('stop_timeout', 10)
-                  and cfg['fault'] != (name, 'stop_async')):
+                  and (name, 'stop_async') not in all_faults_of(cfg)):
                 if (name, 'stop_async_end') not in idx:
                     viol.append(('stop_async-not-awaited',
                                  f"{tag}: {name}.stop_async did not finish (timeout 10 s, needs {params['astop']} s)"))
@@ -585,7 +610,7 @@ def judge(cfg, specs, log, flog, res):
     # 5. frozen
     if res.get('frozen'):
         viol.append(('not-frozen-after-stop', f"{tag}: {res['frozen']}"))
-    if cfg['instant'] == 'async-init' and not res.get('in_async_init') and cfg['fault'] is None:
+    if cfg['instant'] == 'async-init' and not res.get('in_async_init') and not all_faults_of(cfg):
         viol.append(('harness-instant-missed', f"{tag}: not in async init at the chosen instant"))
     return viol
 
